@@ -485,7 +485,7 @@ def r7(ctx):
         run.effect("--other-thread: app.close()")
         I.call(run, I.getattr(run, Ref(app), "close", None), [], {}, st)
 
-    targets = {f"{RF}.read", f"{RF}.setSock", f"{RF}.check"}
+    targets = {f"{RF}.read", f"{RF}.setSock", f"{RF}.check", f"{RF}.teardown"}
     orig_init = Interp.__init__
 
     def patched(self, index, config=None):
